@@ -95,8 +95,11 @@ def report_violation(pid, tier, crate, failed, out_text, prop):
         # counterexample from the verifier
         env = {"CARGO_TARGET_DIR": os.path.join(os.path.dirname(crate), "target")}
         cmd = ["cargo", "kani", "-Z", "function-contracts", "-Z", "stubbing", "-Z", "concrete-playback",
-               "--concrete-playback=print", "--exact", "--harness", hid]
-        rc, out, wall = vlib.sh(cmd, cwd=crate, timeout=prop.get("playback_timeout", 900), env=env)
+               "--concrete-playback=print", "--exact", "--harness", hid] + list(prop.get("kani_flags", []))
+        env["VERIF_BUDGET"] = "3" if tier == "thorough" else "2"
+        rc, out, wall = vlib.sh(cmd, cwd=crate, timeout=prop.get("playback_timeout", 300), env=env)
+        if rc == 124:
+            rep["counterexample_note"] = "counterexample extraction (second Kani run with --concrete-playback) exceeded its time limit; the failed obligation above is from the main run"
         tests = re.findall(r"```\s*\n(.*?)```", out, re.S)
         fc = re.findall(r"Failed Checks: ([^\n]*)\n\s*File: ([^\n]*)", out)
         rep["verifier_output"] = {"failed_checks": [{"check": a, "at": b} for a, b in fc][:20],
